@@ -1,2 +1,213 @@
-// Package c10 will hold the check for property C10.
+// Package c10 decides C10: the file store is durable - after a restart on the same storage path
+// every mailbox shows exactly the mail that was there, and all operations keep working.
+//
+// Two reopen modes.  "inproc": a new file Store object is constructed on the same path inside
+// the running process (after every operation for short histories, at 1-6 seeded points for long
+// ones).  "restart": the history is cut into epochs and every epoch is executed by a FRESH
+// PROCESS (this binary re-executed with VERIF_C10_EPOCH set, see epoch.go), back to back, so
+// that consecutive processes usually share a wall-clock second.  After every reopen/restart the
+// complete state read through the new Store must equal the reference model, and all later
+// operations - deliveries, cap eviction, retention scans - must keep conforming.  Generator and
+// executor are shared with C07 (internal/c07).
 package c10
+
+import (
+	"fmt"
+	"os"
+	"sort"
+	"strings"
+	"time"
+
+	"github.com/inbucket/inbucket/v3/pkg/config"
+	"github.com/inbucket/inbucket/v3/pkg/extension"
+	"github.com/inbucket/inbucket/v3/pkg/storage"
+
+	"verifharness/internal/c07"
+	"verifharness/internal/fw"
+	"verifharness/internal/sut"
+)
+
+func init() {
+	fw.Register(&fw.Prop{
+		ID:    "C10",
+		Level: "exploration",
+		Rule: "C07/C08-style histories (add / get / latest / list / mark-seen / remove / purge / visit / retention scan; cap in " +
+			"{0,2,3,10}; 1-5 mailbox names incl. names sharing the hash prefix directories) on the real file store with reopen points. " +
+			"Stream inproc: short histories (8-25 ops) reopen after EVERY operation, long ones (60-300 ops) at 1-6 seeded points; " +
+			"reopen = new file store object on the same path.  Stream restart: histories of 3-6 epochs, each epoch (3-20 ops, starting " +
+			"with deliveries) executed by a fresh OS process, one right after the other.  After every reopen/restart every mailbox " +
+			"(order, ids, from/to/subject/date, seen, size, content) and VisitMailboxes are compared with the reference model; every " +
+			"later operation is judged as in C07/C08; a retention scan must remove exactly the messages of the old date class.  " +
+			"A case is non-trivial when a non-empty state went through a reopen/restart; distinct by (mode, cap, kinds of mutation " +
+			"that preceded a reopen, other features reached).",
+		Assumptions: []string{
+			"a restart is a process that exits normally after its last store call returned and a new process that constructs file.New on the same path (crashes are C11)",
+			"message dates are either 1971-2015 or 2100-2200 and the retention period is 1h..1y, so the cut-off computed from the machine clock (assumed to lie in 2021..2098) is never within years of a message date",
+			"ids of messages deleted before a restart may be handed out again by the next process (the store cannot know them); within one process ids are never reused; an id of a LIVE message must never be handed out again",
+			"whether two epochs share a wall-clock second is read off the ids the store returned and only counted",
+		},
+		MinObs: func(tier string) map[string]int64 {
+			k := int64(1)
+			if tier == "thorough" {
+				k = 12
+			}
+			return map[string]int64{
+				"distinct_nontrivial":                                            100 * k,
+				"inproc/reopens_nonempty":                                        2000 * k,
+				"inproc/messages_across_reopen":                                  10000 * k,
+				"inproc/feat:reopen-after-add":                                   500 * k,
+				"inproc/feat:reopen-after-mark-seen":                             100 * k,
+				"inproc/feat:reopen-after-remove":                                100 * k,
+				"inproc/feat:reopen-after-remove-last-message":                   50 * k,
+				"inproc/feat:reopen-after-purge":                                 50 * k,
+				"inproc/feat:reopen-after-cap-eviction":                          100 * k,
+				"inproc/feat:reopen-after-retention-scan":                        30 * k,
+				"inproc/scan_expired":                                            200 * k,
+				"inproc/scan_retained":                                           200 * k,
+				"inproc/evict:cap":                                               500 * k,
+				"restart/process_restarts":                                       200 * k,
+				"restart/restarts_nonempty":                                      150 * k,
+				"restart/messages_across_restart":                                1000 * k,
+				"restart/feat:restart-after-add":                                 150 * k,
+				"restart/feat:restart-after-mark-seen":                           30 * k,
+				"restart/feat:restart-after-remove":                              30 * k,
+				"restart/feat:restart-after-purge":                               10 * k,
+				"restart/adds_in_same_second_as_live_message_of_earlier_process": 100 * k,
+				"restart/op:add":                                                 1000 * k,
+			}
+		},
+		ChildTimeout: func(tier string) time.Duration {
+			if tier == "thorough" {
+				return 150 * time.Minute
+			}
+			return 25 * time.Minute
+		},
+		Run: run,
+	})
+}
+
+var caps = []int{0, 2, 3, 10, 0, 2}
+var periods = []time.Duration{time.Hour, 24 * time.Hour, 168 * time.Hour, 8760 * time.Hour}
+
+var inprocWeights = c07.Weights{Add: 40, Get: 8, Latest: 5, List: 4, Seen: 12, Remove: 18, Purge: 5, Visit: 6}
+var restartWeights = c07.Weights{Add: 42, Get: 6, Latest: 4, List: 3, Seen: 14, Remove: 20, Purge: 5, Visit: 4}
+
+func clockUsable() bool {
+	y := time.Now().Year()
+	return y >= 2021 && y <= 2098
+}
+
+func run(c *fw.Ctx) {
+	if !clockUsable() {
+		c.Note("machine clock outside 2021..2098: retention scans are left out of the histories")
+	}
+	c.Cases("inproc", c.N(800, 12000), func(i int, r *fw.Rand) {
+		ok, dump := c.Within(10*time.Minute, func() { runInproc(c, i, r) })
+		if !ok {
+			c.Hang("store-operation", "an in-process reopen history did not finish within the watchdog", dump)
+		}
+	})
+	c.Cases("restart", c.N(120, 2000), func(i int, r *fw.Rand) {
+		runRestart(c, i, r)
+	})
+}
+
+func storageCfg(dir string, cap int, period time.Duration) config.Storage {
+	return config.Storage{Type: "file", Params: map[string]string{"path": dir}, MailboxMsgCap: cap,
+		RetentionPeriod: period, RetentionSleep: 0}
+}
+
+// insertSpecials puts reopen and scan operations into a generated sequence.
+func insertSpecials(r *fw.Rand, ops []*c07.Op, everyOp bool, reopens, scans int) []*c07.Op {
+	at := map[int][]string{}
+	for i := 0; i < scans; i++ {
+		p := r.Range(1, len(ops))
+		at[p] = append(at[p], c07.OpScan)
+	}
+	if !everyOp {
+		for i := 0; i < reopens; i++ {
+			p := r.Range(1, len(ops))
+			at[p] = append(at[p], c07.OpReopen)
+		}
+	}
+	var out []*c07.Op
+	for i, op := range ops {
+		out = append(out, op)
+		for _, k := range at[i+1] {
+			out = append(out, &c07.Op{Kind: k})
+			if k == c07.OpScan && everyOp {
+				out = append(out, &c07.Op{Kind: c07.OpReopen})
+			}
+		}
+		if everyOp {
+			out = append(out, &c07.Op{Kind: c07.OpReopen})
+		}
+	}
+	return out
+}
+
+func sigFeats(e *c07.Exec) string {
+	var fs []string
+	for f := range e.Feats {
+		if strings.HasPrefix(f, "reopen-") || strings.HasPrefix(f, "restart-") || strings.HasPrefix(f, "scan-") ||
+			f == "cap-eviction" || f == "readd-after-purge" || f == "remove-twice" || f == "seen-twice" || f == "remove-middle" {
+			fs = append(fs, f)
+		}
+	}
+	sort.Strings(fs)
+	return strings.Join(fs, ",")
+}
+
+func runInproc(c *fw.Ctx, idx int, r *fw.Rand) {
+	short := idx%2 == 0
+	cap := caps[r.Intn(len(caps))]
+	period := periods[r.Intn(len(periods))]
+	names := c07.PickNames(r, r.Range(1, 5))
+	boxes := c07.BoxTexts(names)
+	var nops, reopens, scans int
+	if short {
+		nops = r.Range(8, 25)
+		scans = r.Intn(2)
+	} else {
+		nops = r.Range(60, 300)
+		reopens = r.Range(1, 6)
+		scans = r.Intn(3)
+	}
+	if !clockUsable() {
+		scans = 0
+	}
+	ops := c07.GenOps(r, names, nops, inprocWeights, fmt.Sprintf("c10i-%d", idx), nil, true)
+	ops = insertSpecials(r, ops, short, reopens, scans)
+
+	dir := c.TempDir("c10fs")
+	defer os.RemoveAll(dir)
+	sc := storageCfg(dir, cap, period)
+	open := func() (storage.Store, error) { return sut.NewStore("file", sc, extension.NewHost()) }
+	st, err := open()
+	if err != nil {
+		panic(err)
+	}
+	desc := fmt.Sprintf("inproc/cap=%d/period=%v", cap, period)
+	e := c07.NewExec("C10", "file", desc, st, cap, 0, boxes)
+	e.Open = open
+	e.ScanCfg = sc
+	e.ContentEvery = 8
+	for _, op := range ops {
+		e.Apply(op)
+		if e.Dead() {
+			break
+		}
+	}
+	if !e.Dead() {
+		e.Apply(&c07.Op{Kind: c07.OpReopen})
+	}
+	c07.Report(c, e, "inproc/")
+	if e.Counts["reopens_nonempty"] > 0 {
+		kind := "long"
+		if short {
+			kind = "short"
+		}
+		c.NonTrivial(fmt.Sprintf("inproc-%s|cap=%d|boxes=%d|%s", kind, cap, len(boxes), sigFeats(e)))
+	}
+	c.Sample(map[string]any{"mode": desc, "short": short, "ops": len(ops), "counts": e.Counts})
+}
